@@ -47,7 +47,8 @@ parameter `V : String → Prop` says which routines may be called FOR THEIR VALU
 * `setReg r v` (`Sim.SettableReg r`: `r ≠ unitMode`, `r ≠ discForward`), `assign n v`, `print v`,
   `println v`, `get v`; `printf` (call-free arguments, at least as many
   positional fields as arguments, no field named `result`), `defMacro`, `wait`, `units`, `timeAt`;
-* `actAll`, `setDefault`, `stage`, `action k ops` with operands `light`/`group`/`location`
+* `actAll`, `setDefault w`, `stage`, `action k w ops` (the flag `w`: the command has a `WAIT` of its
+  own — everywhere but lexically inside a matrix block, see below) with operands `light`/`group`/`location`
   (name as string or variable), `zone`, `matrixInline`, `matrixBlock` with ANY body
   of the fragment;
 * `ite c t e` with or without `else`, nested to any depth;
@@ -101,6 +102,27 @@ their meaning follows `Sem`; all of it was validated against the REAL implementa
   (the number of passes is not affected).  Before, `Sem` bound precomputed values pass by pass and
   assigned nothing without a pass — which the machine does not do; `harness/c04.py` reads the
   variable after loops of every form against the real implementation;
+* COMMANDS INSIDE A MATRIX BLOCK have no `WAIT` of their own — the block is one command on the time
+  line: the real parser emits the `WAIT` of `on`/`off`/`set …`/`set default` only
+  `if not (in_matrix() or …)` (`parse.py: _action`), and `context.py` keeps `in_matrix` through a
+  routine definition (a routine DEFINED inside a block is compiled without `WAIT`s wherever it is
+  called from; one defined outside keeps them when called from inside a block).  `Gen` and `Sem`
+  always gave such a command its own wait.  Now `Stmt.action k w ops` and `Stmt.setDefault w` carry
+  the flag `w` ("waits"), `Gen` emits and `Sem` performs the wait iff `w`, and `Block.lexical`
+  (`Model/Ast.lean`) sets the flag from the position exactly as `context.py` does; the driver's
+  reader applies it to every script (`Driver/Ast.lean: toProgram`).  The theorems below hold for
+  EVERY assignment of the flags (the lexical one included), `stmt_action_nowait` /
+  `stmt_setDefault_nowait` being the new cases; the tenth example is a script with commands inside
+  a block.  `stage` inside a routine body, `get`, `wait`, definitions inside a block were already
+  as the parser has them (`Model/ParseTok.lean`, which mirrors the parser, is the reference;
+  `harness/c01.py` compares `Gen` with it on every generated script: stream `gen-vs-parsetok`);
+* `Vm.State.doColor` for the `COLOR` at the `END` of a block: the matrix goes to the light the NAME
+  register THEN holds — a command inside the block changes it — with the cells of the matrix the
+  block was opened on; if that light is a matrix light and the block was opened on a light without
+  a matrix the machine aborts (`_as_raw_matrix(None)`): a defect of the real code
+  (`known_findings.json`: C06-matrix-block-name) that the model mirrors, found by the generator
+  feature `matrix_rich`; `C15_matrix_once` now says "the matrix register holds the matrix of this
+  light" (`m.height = h`, `m.width = w`);
 * `Sem.collect` also collects the routine definitions inside the bodies of MATRIX BLOCKS (the
   loader extracts them like any other, and the real implementation runs
   `set "m" begin define f begin print 7 end stage row 0 end  f`; `Sem` said "unknown routine f");
@@ -187,8 +209,8 @@ theorem Sim.stmts_step (f : Nat) (ihRvs : RvToGoals V img K f) (ihCall : CallGoa
   | setReg r v => exact stmt_setReg f ihRv r v hst.1 hst.2
   | units m => exact stmt_units f m
   | actAll k => exact stmt_actAll f k
-  | setDefault => exact stmt_setDefault f
-  | action k ops => exact stmt_action f ihOs k ops hst
+  | setDefault w => exact stmt_setDefault f w
+  | action k w ops => exact stmt_action f ihOs k w ops hst
   | get name => exact stmt_get f ihRv name hst
   | wait => exact stmt_wait f
   | timeAt ps => exact stmt_timeAt f ps
@@ -626,7 +648,7 @@ def c01Script : Block := Block.ofList [
     (Block.ofList [.print (.lit (.str "big")),
       .ite (.expr (.bin .gt (.var "x") (.lit (.int 5))))
         (Block.ofList [.println (some (.lit (.str "huge")))])
-        (some (Block.ofList [.action .set (.cons (.group (.str "g")) .nil)]))])
+        (some (Block.ofList [.action .set true (.cons (.group (.str "g")) .nil)]))])
     (some (Block.ofList [.print (.lit (.str "small"))])),
   .repeat_ (.count (.lit (.int 3)))
     (Block.ofList [.assign "x" (.expr (.bin .add (.var "x") (.lit (.int 1)))), .print (.var "x")]),
@@ -732,18 +754,18 @@ def c01Script2 : Block := Block.ofList [
   .setReg .time (.lit (.int 500)), .wait, .setReg .time (.lit (.int 0)),
   .get (.lit (.str "a")),
   .setReg .duration (.var "N"),
-  .action .set (.cons (.zone (.str "z") ⟨.lit (.int 1), some (.expr (.bin .add (.var "N") (.lit (.int 1))))⟩)
+  .action .set true (.cons (.zone (.str "z") ⟨.lit (.int 1), some (.expr (.bin .add (.var "N") (.lit (.int 1))))⟩)
     (.cons (.light (.str "a")) .nil)),
-  .action .set (.cons (.matrixInline (.str "m") (some ⟨.lit (.int 0), none⟩)
+  .action .set true (.cons (.matrixInline (.str "m") (some ⟨.lit (.int 0), none⟩)
     (some ⟨.lit (.int 0), some (.lit (.int 1))⟩) false) .nil),
   .repeat_ .forever (Block.ofList [
-    .action .set (.cons (.matrixBlock (.str "m") (Block.ofList [
+    .action .set true (.cons (.matrixBlock (.str "m") (Block.ofList [
       .setReg .hue (.lit (.int 1000)),
       .stage (some ⟨.lit (.int 1), none⟩) none false,
       .ite (.reg .hue) (Block.ofList [.brk]) none])) .nil),
     .print (.lit (.str "not reached"))]),
-  .setDefault,
-  .action .off (.cons (.light (.var "who")) (.cons (.group (.str "g")) (.cons (.location (.str "home")) .nil))),
+  .setDefault true,
+  .action .off true (.cons (.light (.var "who")) (.cons (.group (.str "g")) (.cons (.location (.str "home")) .nil))),
   .actAll .set]
 
 
@@ -1578,7 +1600,7 @@ blocks, `Sem` said "unknown routine f") -/
 
 def matScript : Block := Block.ofList [
   .setReg .hue (.lit (.int 10)),
-  .action .set (.cons (.matrixBlock (.str "m") (Block.ofList [
+  .action .set true (.cons (.matrixBlock (.str "m") (Block.ofList [
     .defRoutine "f" [] (Block.ofList [.print (.lit (.int 7))]),
     .stage (some ⟨.lit (.int 0), none⟩) none false])) .nil),
   .call "f" [] .nil,
@@ -1623,6 +1645,74 @@ example : ∃ k, (run (Loader.load matCode) k (Vm.init c01Lights2)).status = .ha
 example : (Sem.run 200 matScript c01Lights2).2.vm.trace.reverse =
     [.setTile "m" [[1820, 0, 0, 0], [1820, 0, 0, 0], [0, 0, 0, 0], [0, 0, 0, 0]] 0 2 2,
      .out (.int 7), .out (.int 3)] := by decide +kernel
+
+/-! ### tenth example: commands inside a matrix block have no `WAIT` of their own
+
+```
+time 2  hue 10
+set "m" begin  on "a"  stage row 0  set default  set "a"  end
+print 3
+```
+The script as the driver's reader delivers it: `Block.lexical false` clears the `w` flag of the
+three commands inside the block.  One pause (for the block as a whole), then the commands to `a`
+at once.  (The `NAME` register is `a` at `END`, so the block's matrix goes to `a`, which is no
+matrix light: the real machine does the same — a defect of the real code, see
+`known_findings.json`, C06-matrix-block-name.) -/
+
+def inMatSrc : Block := Block.ofList [
+  .setReg .time (.lit (.int 2)), .setReg .hue (.lit (.int 10)),
+  .action .set true (.cons (.matrixBlock (.str "m") (Block.ofList [
+    .action .on true (.cons (.light (.str "a")) .nil),
+    .stage (some ⟨.lit (.int 0), none⟩) none false,
+    .setDefault true,
+    .action .set true (.cons (.light (.str "a")) .nil)])) .nil),
+  .print (.lit (.int 3))]
+
+def inMatScript : Block := Block.lexical false inMatSrc
+
+example : inMatScript = Block.ofList [
+    .setReg .time (.lit (.int 2)), .setReg .hue (.lit (.int 10)),
+    .action .set true (.cons (.matrixBlock (.str "m") (Block.ofList [
+      .action .on false (.cons (.light (.str "a")) .nil),
+      .stage (some ⟨.lit (.int 0), none⟩) none false,
+      .setDefault false,
+      .action .set false (.cons (.light (.str "a")) .nil)])) .nil),
+    .print (.lit (.int 3))] := rfl
+
+def inMatCode : List Instr := [
+  .moveq (.int 2) (.reg .time), .moveq (.int 10) (.reg .hue), .wait, .moveq (.str "m") (.reg .name),
+  .matrix, .moveq (.bool true) (.reg .power), .moveq (.str "a") (.reg .name),
+  .moveq (.operand .light) (.reg .operand), .power, .moveq (.operand .matrix) (.reg .operand),
+  .moveq (.int 0) (.reg .firstRow), .moveq .none (.reg .lastRow), .moveq .none (.reg .firstColumn),
+  .moveq .none (.reg .lastColumn), .color, .moveq (.operand .default) (.reg .operand), .color,
+  .moveq (.str "a") (.reg .name), .moveq (.operand .light) (.reg .operand), .color, .endMatrix,
+  .moveq (.operand .matrixLight) (.reg .operand), .color, .moveq (.int 3) (.reg .result),
+  .out .register (.reg .result), .out .print (.lit .none)]
+
+theorem inMatScript_frag : FragBlock (fun _ => False) inMatScript := by
+  simp only [inMatScript, inMatSrc, Block.lexical, Stmt.lexical, Operands.lexical, Operand_.lexical,
+    Block.ofList, FragBlock, FragStmt, RvC, ExprC, ArgsC, FragOperands, FragOperand, ORangeOK, RangeOK]
+  refine ⟨?_, ?_, ?_, ?_⟩
+  all_goals first
+    | trivial
+    | decide
+    | (repeat' constructor) <;> first | trivial | decide | nofun
+
+set_option maxRecDepth 8000 in
+theorem inMatScript_code : Gen.genProgram inMatScript = some inMatCode := by
+  simp [Gen.genProgram, inMatScript, inMatSrc, Block.lexical, Stmt.lexical, Operands.lexical,
+    Operand_.lexical, Block.ofList, genBlock, genStmt, genRv, genOperands, genOperand,
+    genName, genMatrixRanges, genRange, opcodeOf, ins, result, inMatCode]
+
+example : ∃ k, (run (Loader.load inMatCode) k (Vm.init c01Lights2)).status = .halted ∧
+    (Vm.finish (run (Loader.load inMatCode) k (Vm.init c01Lights2))).trace =
+      .flush :: (Sem.run 200 inMatScript c01Lights2).2.vm.trace :=
+  C01_gen_sim_loaded inMatScript inMatScript_frag inMatCode inMatScript_code 200 c01Lights2
+    (Sem.run 200 inMatScript c01Lights2).2 (eq_of_fst (by decide +kernel))
+
+example : (Sem.run 200 inMatScript c01Lights2).2.vm.trace.reverse =
+    [.pause (.int 2), .setPower "a" 65535 0, .setColor "a" [1820, 0, 0, 0] 0,
+     .warn "not a matrix light", .out (.int 3)] := by decide +kernel
 
 /-! ### why the fragment excludes reading `result` and `setReg unitMode`: on these scripts the
 source semantics and the machine (both of the MODEL) disagree
